@@ -27,7 +27,7 @@ INT = lambda: shim.instance("builtins.int")  # noqa: E731
 STR = lambda: shim.instance("builtins.str")  # noqa: E731
 ELL = lambda: shim.expr_stmt(shim.mk(shim.N.EllipsisExpr))  # noqa: E731
 N_TOP = 6
-N_MEMBER = 14
+N_MEMBER = 15
 MAX_TOP = 2
 MAX_MEMBERS = 2
 
@@ -161,6 +161,20 @@ def _member(sel, cur, k: int, cq: str, cid: str, idx: int, b: Built, defined: li
         v = shim.var("A", INT(), fullname=f"{cq}.{nm}.A", is_inferred=True)
         inner = shim.class_def(nm, f"{cq}.{nm}", [shim.assignment([shim.name_expr("A", "A", node=v)])], bases=[shim.base_expr("enum.Enum")])
         return [inner], [f"class {nm}(Enum):", "    A = 1"]
+    if k == 14:  # overloaded static method whose implementation is decorated too (impl is a Decorator, not a FuncDef)
+        nm = "os" + n
+        b.features.add("overloaded-static")
+        add({"kind": "method", "id": f"{cid}/{nm}", "owner": cid, "name": nm, "static": True, "class_method": False, "property": False,
+             "construct": "overloaded-method-with-decorated-implementation"})
+        o1 = shim.decorator(_fun(nm, f"{cq}.{nm}", None, ["x"], is_static=True))
+        o2 = shim.decorator(_fun(nm, f"{cq}.{nm}", None, ["x"], is_static=True))
+        o2.func.arguments[0].__dict__["type_annotation"] = STR()
+        o2.func.arguments[0].variable.__dict__["type"] = STR()
+        impl = shim.decorator(shim.func_def(nm, f"{cq}.{nm}", [shim.argument("x", shim.ArgKind.ARG_POS)], ret=INT(), body=[ELL()],
+                                            is_static=True))
+        return [shim.overloaded([o1, o2], impl=impl)], ["@overload", "@staticmethod", f"def {nm}(x: int) -> int: ...", "@overload",
+                                                        "@staticmethod", f"def {nm}(x: str) -> int: ...", "@staticmethod",
+                                                        f"def {nm}(x) -> int: ..."]
     # 12: private method
     nm = "_p" + n
     add({"kind": "method", "id": f"{cid}/{nm}", "owner": cid, "name": nm, "static": False, "class_method": False, "property": False})
